@@ -3,7 +3,7 @@ for location paths" (proof leg: coq/XpSpecDefs.v, coq/XpSpec*Model.v, coq/Proper
 
 run_part(ctx) is called by props/C02.py after the library, the `xp` model and the `xp` harness are built.
 
- * proves coq/Properties_C02s.v when the file exists (ctx.prove records failures in ctx.broken itself);
+ * proves coq/Properties_C02s.v and coq/Properties_C02t.v when the files exist (ctx.prove records failures in ctx.broken itself);
  * the axis-focused stream: for generated documents (vlib/xpgen.py) and EVERY node of the XPath data model as
    context node (elements, attributes, text, comments, processing instructions, the root; not the xmlns
    declaration items, which are not XPath nodes: DESIGN.md 12.3) and every one of the twelve axes other than
@@ -31,7 +31,7 @@ CORPUS = os.path.join(core.VERIF, "corpus", "C02s")
 
 # line budgets of the generated stream (each line = one expression evaluated by the library through all six
 # entry points); the fixed corpus comes on top
-LINES_QUICK, LINES_THOROUGH, LINES_WIDENED = 250000, 2500000, 1000000
+LINES_QUICK, LINES_THOROUGH, LINES_WIDENED = 150000, 2500000, 1000000
 CHUNK = 250000
 MODEL_SAMPLE_QUICK, MODEL_SAMPLE_THOROUGH = 4000, 60000
 
@@ -238,8 +238,11 @@ def run_part(ctx):
     ctx.notes["rule"] = (ctx.notes.get("rule", "") + " | " + rule) if ctx.notes.get("rule") else rule
 
     proved = True
-    if os.path.exists(os.path.join(core.COQ, "Properties_C02s.v")):
-        proved = ctx.prove(["Properties_C02s.v"], ["GenNum"])
+    # Properties_C02s.v: axes / steps / paths / substring / arithmetic; Properties_C02t.v: node tests, the
+    # relational semantics den of whole expressions, eval_sound / eval_complete / den_deterministic
+    pfiles = [f for f in ("Properties_C02s.v", "Properties_C02t.v") if os.path.exists(os.path.join(core.COQ, f))]
+    if pfiles:
+        proved = ctx.prove(pfiles, ["GenNum"])
     impl, ok_h, hlog = core.build_harness("xp", "plain")
     if not ok_h:
         ctx.broken.append("spec: harness xp does not compile against the working tree: " + hlog[-300:])
